@@ -590,6 +590,7 @@ def run_case(case):
 
 
 PROP = Property(
+    prelude=True,
     id="C19",
     level="exploration",
     rule=("Hypothesis generates /sys and /proc trees: 0-4 hwmon chips (flat "
